@@ -488,14 +488,21 @@ def pow_symm(A, m):
     """
     return symmetric_matrix_function(A, lambda x: np.power(x, m))
 
-# This function loses precision when lam1 -> lam2.
-# Please replace with a numerically stable implmentation if you know how!
+# (lam1**m - lam2**m)/(lam1 - lam2), evaluated without cancellation when lam1 -> lam2.
 def _pow_relative_difference(lam1, lam2, m):
     lams = np.array([lam1, lam2])
     i = np.argsort(np.abs(lams))
     lam_small, lam_big = lams[i]
     arg = lam_small/lam_big
-    return lam_big**(m-1)*(arg**m - 1)/(arg - 1)
+    # x = arg - 1 without the cancellation of forming arg first; for arg near 1 use
+    # (arg**m - 1)/(arg - 1) = expm1(m*log1p(x))/x, which keeps its accuracy as x -> 0
+    x = (lam_small - lam_big)/lam_big
+    isClose = np.abs(x) < 0.5
+    xSafe = np.where(isClose, x, -0.25)
+    stable = np.expm1(m*np.log1p(xSafe))/xSafe
+    argSafe = np.where(isClose, 0.5, arg)
+    direct = (argSafe**m - 1)/(argSafe - 1)
+    return lam_big**(m-1)*np.where(isClose, stable, direct)
 
 @pow_symm.defjvp
 def _pow_symm_jvp(primals, tangents):
